@@ -426,8 +426,7 @@ void runBehaviour(Ctx &ctx, const QString &caseId, const QJsonObject &beh)
 // delivered to the other (from= added, as the server does) until nothing is in flight or `cap` stanzas were
 // delivered.  Scenarios (--in: one {"scn":..,"acks":..} per line):
 //   call    A proposes, B rings and proceeds, A finishes
-//   glare   A and B propose at the same time (both proposals in flight), then the winner's side finishes
-//   switch  A proposes, B proceeds, A's other device... (not modelled here)
+//   glare   A and B propose at the same time (both proposals in flight), then A finishes
 // acks: "early" every stanza is acknowledged as soon as it is written, "late" only when nothing else is in flight.
 // One trace line per scenario: {"e":"Pair","scn","acks","delivered","quiescent","wire":[..],"a":{..},"b":{..}}.
 struct Side {
